@@ -115,16 +115,19 @@ end ShootVerif.Drive.RestD
 namespace ShootVerif.Drive
 open ShootVerif.Rest ShootVerif.Drive.RestD
 
+/-- the forms `(hdoc "…") (headers (k v)…) (methods (m …)…)` of one interface ↦ the model's and the specification's view -/
+def parseIface (p : Sexp) : Option (Iface × IfaceSpec) :=
+  let hdoc := ((p.field? "hdoc").bind (fun f => f.args.head?.bind strArg)).getD ""
+  match ((p.field? "headers").map (·.args)).getD [] |>.mapM pairOf,
+        ((p.field? "methods").map (·.args)).getD [] |>.mapM parseMethod with
+  | some hs, some ms => some (⟨hdoc.toList, ms.map (·.1)⟩, ⟨hs, ms.map (·.2)⟩)
+  | _, _ => none
+
 /-- `(rest-iface (hdoc "…") (headers (k v)…) (methods (m …)…) (calls (c …)…))` -/
 def restIfaceCase (id : String) (payload : List Sexp) : List String :=
   let p := Sexp.list (.atom "p" :: payload)
-  let hdoc := ((p.field? "hdoc").bind (fun f => f.args.head?.bind strArg)).getD ""
-  match ((p.field? "headers").map (·.args)).getD [] |>.mapM pairOf,
-        ((p.field? "methods").map (·.args)).getD [] |>.mapM parseMethod,
-        ((p.field? "calls").map (·.args)).getD [] |>.mapM parseCall with
-  | some hs, some ms, some calls =>
-    let iface : Iface := ⟨hdoc.toList, ms.map (·.1)⟩
-    let ispec : IfaceSpec := ⟨hs, ms.map (·.2)⟩
+  match parseIface p, ((p.field? "calls").map (·.args)).getD [] |>.mapM parseCall with
+  | some (iface, ispec), some calls =>
     let idx := calls.zipIdx
     let specLines := [("gen", "ok")] ++ (idx.map (fun (c, k) =>
       match findMethod ispec c.method with
@@ -141,6 +144,29 @@ def restIfaceCase (id : String) (payload : List Sexp) : List String :=
           | none => [(s!"c{k}.out", "no-such-method")])).flatten)
       ++ showParsed iface
     both id modelLines specLines (region ispec calls)
-  | _, _, _ => err id "bad-rest-iface-case"
+  | _, _ => err id "bad-rest-iface-case"
+
+/-- C01 leg of the rest area: `(c01rest (i (hdoc …) (headers …) (methods …)) …)` — the interfaces one
+    `shoot rest` run generates. Property C01: the run exits 0 and what it wrote compiles with the
+    package. The model says what the unchanged generator does (Q1: exit 1; Q2/Q5: does not compile). -/
+def c01RestCase (id : String) (payload : List Sexp) : List String :=
+  match payload.mapM (fun (p : Sexp) => parseIface p) with
+  | some pairs =>
+    let gens := pairs.map (fun x => generate x.1)
+    let exit1 := gens.any (fun g => g == GenRes.fatal || g == GenRes.formatError)
+    let nocompile := gens.any GenRes.failsToCompile
+    let okLines := [("header", "ok"), ("gofmt", "ok"), ("package", "ok")]
+    let modelLines := if exit1 then [("exit", "1")]
+      else [("exit", "0"), ("compile", if nocompile then "error" else "ok")] ++ okLines
+    let specLines := [("exit", "0"), ("compile", "ok")] ++ okLines
+    let specs := pairs.map (·.2)
+    let reg :=
+      if specs.any (fun i => !structOk i) then "Out"
+      else if specs.any F_mixedCtx then "F_restMixedCtx"
+      else if specs.any F_bodyNoStruct then "F_restBodyNoStruct"
+      else if specs.any F_ptrDict then "F_restPtrDict"
+      else "WF"
+    both id modelLines specLines reg
+  | none => err id "bad-c01rest-case"
 
 end ShootVerif.Drive
